@@ -24,11 +24,26 @@ PPORTS = [80, 5432, 219, 21]
 POSITIONS = [0, 1, 12, 21, 23]
 
 
+NONCONTIG = [int(IPv4Address(x)) for x in ("0.0.255.0", "0.255.0.255", "0.0.0.254", "170.85.170.85")]
+
+
 def addr_specs():
-    """(base, wildcard) rule address specs: unspecified, exact, ranges, 0.0.0.0 exact, 0.0.0.0/any."""
+    """(base, wildcard) rule address specs: unspecified, exact, ranges (base with bits set under the mask), 0.0.0.0
+    exact, 0.0.0.0/any, and non-contiguous wildcard masks (must-match bits below ignore bits)."""
     out = [(None, None), (A[0], None), (A[2], None), (ZERO, None)]
     out += [(A[0], WILDS[1]), (A[0], WILDS[2]), (A[2], WILDS[1]), (ZERO, WILDS[3]), (A[3], WILDS[3])]
+    out += [(A[0], NONCONTIG[0]), (A[3], NONCONTIG[1])]  # 10.0.*.2 (not 10.0.1.77) ; 10.*.2.* (10.0.2.2 yes, 10.0.1.x no)
     return out
+
+
+def rand_addr_spec(rnd):
+    """arbitrary base and arbitrary (mostly non-contiguous) wildcard, plus packets that must / must not match it"""
+    base = rnd.choice(A) ^ rnd.getrandbits(32) & rnd.choice([0xFF, 0xFFFF, 0xFF00FF, 0xFFFFFFFF])
+    wild = rnd.choice(NONCONTIG + [rnd.getrandbits(32), rnd.getrandbits(32) & rnd.getrandbits(32), (1 << rnd.randrange(1, 32)) - 1])
+    inside = [(base ^ (rnd.getrandbits(32) & wild)) & 0xFFFFFFFF for _ in range(3)]
+    care = [b for b in range(32) if not (wild >> b) & 1]
+    outside = [(x ^ (1 << rnd.choice(care))) & 0xFFFFFFFF for x in inside[:2]] if care else []
+    return base & 0xFFFFFFFF, wild & 0xFFFFFFFF, inside, outside
 
 
 def rule_domain():
@@ -293,6 +308,7 @@ def run_lists(spec, cov, out):
         n = rnd.choice([0, 1, 2, 2, 3, 3, 3, 24]) if spec.get("dense", True) else rnd.choice([2, 3])
         positions = rnd.sample(range(24), min(n, 24))
         base = rnd.choice(dom)
+        extra = []
         for pos in positions:
             if rnd.random() < 0.5:  # overlapping variant of the same rule: drop/alter one field, flip action
                 r = dict(base)
@@ -309,11 +325,20 @@ def run_lists(spec, cov, out):
                     r["action"] = "PERMIT" if base["action"] == "DENY" else "DENY"
             else:
                 r = dict(rnd.choice(dom))
+            if rnd.random() < 0.35:  # arbitrary wildcard on one side + packets probing exactly its care / don't-care bits
+                f = rnd.choice(["src", "dst"])
+                b, w, inside, outside = rand_addr_spec(rnd)
+                r[f], r[f + "w"] = b, w
+                for x in inside + outside:
+                    q = list(rnd.choice(pk))
+                    q[1 if f == "src" else 2] = x
+                    extra.append(tuple(q))
+                cov.inc("random_wildcard_rules")
             fe_python_add(acl, pos, r)
             ref.add(pos, r)
             p.log.append(("add", pos, fmt_rule(r)))
         p.compare_vectors("build")
-        pks = pk if n < 24 else rnd.sample(pk, 150)
+        pks = (pk if n < 24 else rnd.sample(pk, 150)) + extra
         for pkt in pks:
             p.check_packet(pkt)
         p.compare_vectors("all packets")
@@ -557,7 +582,7 @@ class Check:
         "out-of-range positions: only 'no position changed' is judged here (status/exception is C05's concern)",
         "router default rules (22: ARP permit, 23: ICMP permit) are part of the documented initial list",
     ]
-    min_monitor = {"verdicts": 5000, "vector_compares": 100, "shadowed_verdicts": 50}
+    min_monitor = {"verdicts": 5000, "vector_compares": 100, "shadowed_verdicts": 50, "random_wildcard_rules": 40}
     case_timeout = {"quick": 1200, "thorough": 3600}
 
     def cases(self, tier, seed):
